@@ -86,7 +86,10 @@ def build_cases(ctx, per_cell, deep):
         add("s", ("C", ("L", "b", b), ("P", z), ("L", zk, 1 if zk != "f" else 0x3F800000)))
         dist["lazy-div0"] += 4
     for k in range(deep):
-        add("d", ac.random_tree(rng, rng.choice([2, 2, 3])))
+        if k % 5 == 0:
+            add("d", ac.random_tree(rng, rng.choice([2, 2, 3])))
+        else:
+            add("d", ac.typed_tree(rng, rng.choice(["b", "i", "l", "f", "d"]), rng.choice([1, 2, 2, 3])))
         dist["random-tree"] += 1
     return cases, dist
 
@@ -113,7 +116,7 @@ def classify(r):
 
 
 def key_of(prefix, tree):
-    rk = ae.root_key(tree)
+    rk = ae.root_key(tree, promoted=True)
     if prefix == "trap":
         op = rk.split(":")[0]
         wide = "long" if "long" in rk else "int"
@@ -146,10 +149,12 @@ def run(ctx):
     nontrivial = set()
     viol_seen = {}
 
-    cases, dist = build_cases(ctx, 10 if quick else 40, 1500 if quick else 12000)
+    cases = collections.OrderedDict()          # the corpus always runs first
     for i, obj in enumerate(load_corpus()):
         if obj.get("kind") == "expr":
             cases["k%05d" % i] = totuple(obj["tree"])
+    gen_cases, dist = build_cases(ctx, 24 if quick else 80, 3000 if quick else 20000)
+    cases.update(gen_cases)
     res = ae.eval_expr_cases(cases, Tp, work, "c10", legs=("var", "lit", "dump"))
     if res.get("?model_errors"):
         ctx.correspondence_broken("model-driver", res["?model_errors"][:3])
@@ -242,7 +247,7 @@ def run(ctx):
     acases = collections.OrderedDict()
     for kl in NUMK:
         for kr in NUMK:
-            for k in range(8 if quick else 30):
+            for k in range(20 if quick else 80):
                 v = ac.pick_value(rng, kr)
                 acases["a%05d" % len(acases)] = (kl, ac.value_tree(kr, v), kr, v)
     lines, vprogs, lprogs = [], [], []
